@@ -7,6 +7,7 @@ import (
 	"strings"
 	"time"
 
+	"github.com/openacid/slim/encode"
 	"github.com/openacid/slim/trie"
 	"verif/internal/h"
 )
@@ -378,42 +379,15 @@ func runC14(r *h.Run) {
 // ---------- C18: Stat ----------
 
 func oracleC18(w *h.Worker, b *h.Built, inst string, st *trie.SlimTrie, u *inputSpec) *h.Viol {
-	s := st.Stat()
-	w.Trans++
 	n := len(b.Kept)
-	if int(s.KeyCnt) != n {
-		return &h.Viol{Sig: "stat-keycnt", Msg: fmt.Sprintf("Stat().KeyCnt = %d, retained keys = %d", s.KeyCnt, n)}
-	}
-	if int(s.LevelCnt) != len(s.Levels) || len(s.Levels) == 0 {
-		return &h.Viol{Sig: "stat-levelcnt", Msg: fmt.Sprintf("LevelCnt = %d, len(Levels) = %d", s.LevelCnt, len(s.Levels))}
-	}
-	var prev struct{ Total, Inner, Leaf int32 }
-	for i, l := range s.Levels {
-		if l.Total != l.Inner+l.Leaf {
-			return &h.Viol{Sig: "stat-level-sum", Msg: fmt.Sprintf("level %d: total %d != inner %d + leaf %d", i, l.Total, l.Inner, l.Leaf)}
-		}
-		if l.Total < prev.Total || l.Inner < prev.Inner || l.Leaf < prev.Leaf {
-			return &h.Viol{Sig: "stat-level-decreases", Msg: fmt.Sprintf("level %d: (%d,%d,%d) decreases from (%d,%d,%d)", i, l.Total, l.Inner, l.Leaf, prev.Total, prev.Inner, prev.Leaf)}
-		}
-		prev = l
-	}
-	last := s.Levels[len(s.Levels)-1]
-	if s.NodeCnt != last.Total || s.NodeCnt != last.Inner+last.Leaf {
-		return &h.Viol{Sig: "stat-nodecnt", Msg: fmt.Sprintf("NodeCnt = %d, last level (%d,%d,%d)", s.NodeCnt, last.Total, last.Inner, last.Leaf)}
-	}
-	if n > 0 && int(last.Leaf) != n {
-		return &h.Viol{Sig: "stat-last-level-leaf", Msg: fmt.Sprintf("last level leaf count %d != retained keys %d", last.Leaf, n)}
-	}
-	if n == 0 && (s.KeyCnt != 0 || s.NodeCnt != 0) {
-		return &h.Viol{Sig: "stat-empty", Msg: fmt.Sprintf("empty trie: KeyCnt=%d NodeCnt=%d", s.KeyCnt, s.NodeCnt)}
-	}
-	// "(1 key, 1 node) for a single key": a trie built from one key; a trie whose
-	// other keys were de-duplicated away legitimately keeps single-label inner nodes.
-	if len(b.Keys) == 1 && (s.KeyCnt != 1 || s.NodeCnt != 1) {
-		return &h.Viol{Sig: "stat-single", Msg: fmt.Sprintf("single-key trie: KeyCnt=%d NodeCnt=%d", s.KeyCnt, s.NodeCnt)}
-	}
-	if n >= 2 && s.NodeCnt < int32(n)+1 {
-		return &h.Viol{Sig: "stat-nodecnt-small", Msg: fmt.Sprintf("NodeCnt=%d for %d retained keys", s.NodeCnt, n)}
+	// the node structure depends on the keys and on de-duplication only, not on
+	// which prefixes are stored: render the modes without stored prefixes, and
+	// Complete on lists of up to 30 keys
+	noPref := b.Opt.I <= 0 && b.Opt.L <= 0 && b.Opt.C <= 0
+	render := inst == h.InstFresh && n >= 1 && len(b.Keys) <= 400 && ((len(b.Keys) >= 5 && (noPref || len(b.Keys) <= 30)) || b.Opt == (h.Opt4{D: 1, I: 0, L: 0, C: 0}))
+	s, v := checkStat(w, st, n, len(b.Keys), render)
+	if v != nil {
+		return v
 	}
 	if inst != h.InstFresh {
 		fs := b.ST.Stat()
@@ -421,11 +395,54 @@ func oracleC18(w *h.Worker, b *h.Built, inst string, st *trie.SlimTrie, u *input
 			return &h.Viol{Sig: "stat-roundtrip", Msg: fmt.Sprintf("Stat of %s instance %+v differs from fresh %+v", inst, *s, *fs)}
 		}
 	}
+	return nil
+}
+
+// checkStat applies the clauses of C18 to one instance that holds n retained
+// keys (built from nInput keys); render: also compare the level table with the
+// per-depth node counts of the String() rendering.
+func checkStat(w *h.Worker, st *trie.SlimTrie, n, nInput int, render bool) (*trie.Stat, *h.Viol) {
+	s := st.Stat()
+	w.Trans++
+	if int(s.KeyCnt) != n {
+		return s, &h.Viol{Sig: "stat-keycnt", Msg: fmt.Sprintf("Stat().KeyCnt = %d, retained keys = %d", s.KeyCnt, n)}
+	}
+	if int(s.LevelCnt) != len(s.Levels) || len(s.Levels) == 0 {
+		return s, &h.Viol{Sig: "stat-levelcnt", Msg: fmt.Sprintf("LevelCnt = %d, len(Levels) = %d", s.LevelCnt, len(s.Levels))}
+	}
+	var prev struct{ Total, Inner, Leaf int32 }
+	for i, l := range s.Levels {
+		if l.Total != l.Inner+l.Leaf {
+			return s, &h.Viol{Sig: "stat-level-sum", Msg: fmt.Sprintf("level %d: total %d != inner %d + leaf %d", i, l.Total, l.Inner, l.Leaf)}
+		}
+		if l.Total < prev.Total || l.Inner < prev.Inner || l.Leaf < prev.Leaf {
+			return s, &h.Viol{Sig: "stat-level-decreases", Msg: fmt.Sprintf("level %d: (%d,%d,%d) decreases from (%d,%d,%d)", i, l.Total, l.Inner, l.Leaf, prev.Total, prev.Inner, prev.Leaf)}
+		}
+		prev = l
+	}
+	last := s.Levels[len(s.Levels)-1]
+	if s.NodeCnt != last.Total || s.NodeCnt != last.Inner+last.Leaf {
+		return s, &h.Viol{Sig: "stat-nodecnt", Msg: fmt.Sprintf("NodeCnt = %d, last level (%d,%d,%d)", s.NodeCnt, last.Total, last.Inner, last.Leaf)}
+	}
+	if n > 0 && int(last.Leaf) != n {
+		return s, &h.Viol{Sig: "stat-last-level-leaf", Msg: fmt.Sprintf("last level leaf count %d != retained keys %d", last.Leaf, n)}
+	}
+	if n == 0 && (s.KeyCnt != 0 || s.NodeCnt != 0) {
+		return s, &h.Viol{Sig: "stat-empty", Msg: fmt.Sprintf("empty trie: KeyCnt=%d NodeCnt=%d", s.KeyCnt, s.NodeCnt)}
+	}
+	// "(1 key, 1 node) for a single key": a trie built from one key; a trie whose
+	// other keys were de-duplicated away legitimately keeps single-label inner nodes.
+	if nInput == 1 && (s.KeyCnt != 1 || s.NodeCnt != 1) {
+		return s, &h.Viol{Sig: "stat-single", Msg: fmt.Sprintf("single-key trie: KeyCnt=%d NodeCnt=%d", s.KeyCnt, s.NodeCnt)}
+	}
+	if n >= 2 && s.NodeCnt < int32(n)+1 {
+		return s, &h.Viol{Sig: "stat-nodecnt-small", Msg: fmt.Sprintf("NodeCnt=%d for %d retained keys", s.NodeCnt, n)}
+	}
 	w.Outcome(fmt.Sprintf("levels_%d", s.LevelCnt))
 	// per-level counts against an independent source: the depth of every node in
 	// the rendering (decided by C19) gives the true number of inner and leaf
 	// nodes on each level
-	if inst == h.InstFresh && n >= 1 && len(b.Keys) <= 400 && (len(b.Keys) >= 5 || b.Opt == (h.Opt4{D: 1, I: 0, L: 0, C: 0})) {
+	if render {
 		var str string
 		if p := h.Safely(func() { str = st.String() }); p == nil && str != "" {
 			type cnt struct{ total, inner, leaf int32 }
@@ -471,21 +488,91 @@ func oracleC18(w *h.Worker, b *h.Built, inst string, st *trie.SlimTrie, u *input
 					}
 				}
 				if bad {
-					return &h.Viol{Sig: "stat-levels-vs-rendering", Msg: fmt.Sprintf("Stat().Levels = %v, but the rendering has cumulative per-level (total,inner,leaf) = %v", s.Levels, want)}
+					return s, &h.Viol{Sig: "stat-levels-vs-rendering", Msg: fmt.Sprintf("Stat().Levels = %v, but the rendering has cumulative per-level (total,inner,leaf) = %v", s.Levels, want)}
 				}
 				w.Trans++
 			}
 		}
 	}
-	return nil
+	return s, nil
 }
 
 func runC18(r *h.Run) {
 	p := defaultProfile()
 	p.needQs = false
-	r.Rule = "same space as C01 (all 16 option combinations, all instances); oracle: KeyCnt = |retained|, LevelCnt = len(Levels), every level total = inner + leaf, no count decreases, last level = (NodeCnt, inner, KeyCnt), empty => (0,0), single => (1,1), loaded instance's Stat deep-equals the fresh one; on fresh tries of 5..400 keys (smaller ones in the default mode) the level table equals the cumulative number of inner and leaf nodes per depth counted in the String() rendering (an independent code path, decided by C19); legacy-loaded KeyCnt is checked by C06"
+	r.Rule = "same space as C01 (all 16 option combinations, all instances); oracle: KeyCnt = |retained|, LevelCnt = len(Levels), every level total = inner + leaf, no count decreases, last level = (NodeCnt, inner, KeyCnt), empty => (0,0), single => (1,1), loaded instance's Stat deep-equals the fresh one; on fresh tries of 5..400 keys (smaller ones in the default mode; beyond 30 keys in the modes without stored prefixes, which have the same node structure) the level table equals the cumulative number of inner and leaf nodes per depth counted in the String() rendering (an independent code path, decided by C19); the same clauses on tries loaded from every historical layout (K(U21,3) and scaffolds), into a new instance and into an instance that held another trie"
 	r.Assumptions = commonAssumptions
 	runTriePass(r, buildPhases(r, p), oracleC18, nil)
+
+	// tries loaded from the historical layouts (their level table is rebuilt by a
+	// load path of its own), into a new instance and into one that held another trie
+	if !conformLegacy(r) {
+		return
+	}
+	sp := newSpaceCtx(r.Seed)
+	layouts := legacyLayouts()
+	scs := scaffoldSet(sp, r.Tier == "thorough", []int{2, 3}, func(n string) bool {
+		return n == "shift64" || n == "shift30" || n == "shift3" || n == "short2-mixed" || n == "bigroot-in" || n == "big2-in" || n == "lift3"
+	})
+	type lu struct {
+		keys []string
+		name string
+	}
+	r.Phase("legacy-loaded", func(emit func(u interface{}) bool) {
+		it := h.NewSubsetIter(len(sp.u2), 0, 3)
+		for idx := it.Next(); idx != nil; idx = it.Next() {
+			S := h.Pick(sp.u2, idx)
+			if !emit(lu{S, "subset"}) {
+				return
+			}
+			if len(idx) > 2 || (len(idx) == 2 && (idx[0]+idx[1])%8 != 0) {
+				continue
+			}
+			for _, sc := range scs {
+				s := sc.Apply(S)
+				if !emit(lu{s.Keys, "scaffold:" + s.Name}) {
+					return
+				}
+			}
+		}
+	}, func(w *h.Worker, x interface{}) {
+		u := x.(lu)
+		w.Begin(func() string { return "C18 legacy " + u.name })
+		vals := legacyVals(len(u.keys))
+		for li := range layouts {
+			l := &layouts[li]
+			stream := l.write(u.keys, vals)
+			for _, used := range []bool{false, true} {
+				var st *trie.SlimTrie
+				var err error
+				p := h.Safely(func() {
+					if used {
+						st, err = trie.NewSlimTrie(encode.I32{}, []string{"a", "ab", "b", "bcd", "c"}, []int32{1, 2, 3, 4, 5})
+					} else {
+						st, err = trie.NewSlimTrie(encode.I32{}, nil, nil)
+					}
+					if err == nil {
+						err = st.Unmarshal(stream)
+					}
+				})
+				if err != nil || p != nil {
+					w.DontCare++ // loadability is C06's business
+					continue
+				}
+				w.Evals++
+				w.Tick()
+				w.State(h.Hash64([]byte(l.Name), stream, []byte(fmt.Sprint(used))), len(u.keys) >= 2)
+				_, v := checkStat(w, st, len(u.keys), len(u.keys), len(u.keys) >= 1 && len(u.keys) <= 400)
+				if v != nil {
+					v.Msg = fmt.Sprintf("%s stream loaded into a %s instance: %s | %s keys=%d", l.Name, map[bool]string{false: "new", true: "used"}[used], v.Msg, u.name, len(u.keys))
+					v.Kind, v.Case, v.Unit = "c06", c06Case{Layout: l.Name, KeysHex: hexKeys(u.keys)}, w.Unit()
+					w.Report(*v)
+					return
+				}
+			}
+		}
+		w.Sample(map[string]interface{}{"legacy_loaded": u.name, "keys": len(u.keys), "layouts": len(layouts)})
+	})
 }
 
 // ---------- C19: String ----------
@@ -567,11 +654,12 @@ func runC19(r *h.Run) {
 	p.shortQuick = []int{2, 3, 4}
 	// String() is two orders of magnitude more expensive than a lookup: the
 	// variable part under scaffolds is one key smaller than in C01
-	p.quickScafK, p.thoroughScafK, p.thoroughIDk = 2, 3, 5
+	p.quickScafK, p.thoroughScafK, p.thoroughIDk = 2, 2, 5
+	p.shiftScafK = 1
 	// ... and quadratic in the number of keys (about 1 s for 5 000 keys, 45 s for
 	// 70 000): key lists beyond 8 000 keys are left to the other trie checks
 	p.maxListKeys = 8000
-	r.Rule = "same space as C01 (variable part under scaffolds: K(U21,2) quick / K(U21,3) thorough) with the short-table scaffolds of every table size whose filler has at most 8 000 keys and their mixed variants (short and 17-bit nodes side by side), bigroot, big2; values are distinct-per-id integers / strings so leaf lines parse unambiguously; oracle: no panic; the #id tokens are exactly {0..NodeCnt-1}, each once; the =value suffixes top to bottom equal the retained values in key order; a loaded instance renders the identical string"
+	r.Rule = "same space as C01 (variable part under scaffolds: K(U21,2); thorough: id K(U21,5), K(U85,3), 130 shift offsets over K(U21,1)) with the short-table scaffolds of every table size whose filler has at most 8 000 keys and their mixed variants (short and 17-bit nodes side by side), bigroot, big2; values are distinct-per-id integers / strings so leaf lines parse unambiguously; oracle: no panic; the #id tokens are exactly {0..NodeCnt-1}, each once; the =value suffixes top to bottom equal the retained values in key order; a loaded instance renders the identical string"
 	r.Assumptions = append([]string{"the rendering is parsed by its current line format: one line per node, the node id as #<digits>, a leaf value after the first '=' that follows the id"}, commonAssumptions...)
 	runTriePass(r, buildPhases(r, p), oracleC19, nil)
 }
